@@ -248,7 +248,9 @@ class Field(
 
         # Field ancillary variables
         x = [
-            _print_item(self, key, anc, self.constructs.data_axes()[key])
+            _print_item(
+                self, key, anc, self.constructs.data_axes().get(key, ())
+            )
             for key, anc in sorted(self.field_ancillaries(todict=True).items())
         ]
         if x:
@@ -1689,10 +1691,15 @@ class Field(
                     header=header,
                 )
             )
-            out.append(
-                f"{name}.set_construct(c, axes={self.get_data_axes(key)}, "
-                f"key={key!r}, copy=False)"
-            )
+            axes = self.get_data_axes(key, default=None)
+            if axes is None:
+                # The construct has not had its axes set
+                out.append(f"{name}.set_construct(c, key={key!r}, copy=False)")
+            else:
+                out.append(
+                    f"{name}.set_construct(c, axes={axes}, "
+                    f"key={key!r}, copy=False)"
+                )
 
         # Cell method constructs
         for key, c in self.cell_methods(todict=True).items():
@@ -1806,7 +1813,7 @@ class Field(
             string.append(
                 value.dump(
                     display=False,
-                    _axes=constructs_data_axes[cid],
+                    _axes=constructs_data_axes.get(cid),
                     _axis_names=axis_to_name,
                     _level=_level,
                 )
